@@ -156,6 +156,8 @@ package hcldec
 // verif:func (*BlockAttrsSpec).decode
 //@ nosafety
 //@ requires content != nil
+// (... and a non-empty map: every argument of the block gets an entry, whatever happens to its value)
+//@ loop 1 invariant vals != nil && fresh(vals) && (forall k string :: { visited(k) } visited(k) ==> has(vals, k))
 
 // ---- block lists and sets (unit U17b) ----
 // verif:func (*BlockListSpec).impliedType
